@@ -48,6 +48,10 @@ use std::{
 mod config;
 mod handle;
 
+#[cfg(litep2p_verif)]
+#[path = "../../../verif/c20.rs"]
+pub(crate) mod verif_c20;
+
 mod schema {
     pub(super) mod bitswap {
         include!(concat!(env!("OUT_DIR"), "/bitswap.rs"));
@@ -788,6 +792,11 @@ fn extract_next_batch<'a>(
     for b in blocks.iter() {
         let next_block_size = b.1.len();
         if total_size + next_block_size > max_batch_size {
+            break;
+        }
+        // The encoding overhead of a block is not counted above, so a batch of very many tiny
+        // blocks would exceed `MAX_MESSAGE_SIZE` and be dropped as a whole.
+        if block_count == config::MAX_BATCH_BLOCKS {
             break;
         }
         total_size += next_block_size;
